@@ -4,7 +4,7 @@ import os
 
 from .common import VERIF
 
-BASELINE_OFF = "cd /repo && go test -mod=mod -vet=off -count=1 -timeout 25m ./src/... 2>&1 | tail -n 40"
+BASELINE_OFF = "cd /repo && go test -mod=mod -json -vet=off -count=1 -timeout 25m ./..."
 
 TB = ("Lean 4.33.0 kernel (+ leanchecker in the thorough tier); axioms propext/Classical.choice/Quot.sound only, audited with "
       "#print axioms per theorem; no sorry/native_decide/bv_decide/axiom (grep on every run); the translator (T-gen) and the "
@@ -23,6 +23,21 @@ CHECKS = {
         note=TB + "Go's utf8.Valid/DecodeRune and strings.ToLower trusted; the model starts from decoded code points.",
         technique="Lean 4 proof over transcribed scanner model + regenerated keyword table + exhaustive differential correspondence",
         ref="§5 C13",
+    ),
+    "C20": dict(
+        text=("Proof (Lean 4) over L1 models of ordered_map.go (binary search with eq-hit/less-direction, linear insert), alias_trie/trie.go "
+              "(Insert/Contains/Search) and tokenEqual/tokenLess: under the contract Compat(eq,less) the sorted-slice map refines an "
+              "association list for every sequence of Sets in every order (omap_refines), the trie refines a pattern->alias map "
+              "(trie_refines), a stored alias stays found and every later pointwise-equal declaration is rejected for every declaration "
+              "sequence (declared_stays, accepted_is_stored); exact characterisation of when the real predicates satisfy the contract "
+              "(token_compat / token_incompat: printed name + list-ness must separate type identities) and a kernel-evaluated witness of "
+              "the failure (token_incompat_witness). Tie: model executed against the real alias_trie/ordered_map with the real predicates "
+              "(exported under tag verif): all ordered key pairs for the predicates, every permutation of every 4-(quick)/5-(thorough) "
+              "subset of placeholder patterns + random pattern sets; program level through parser.Parse with aliases arriving via "
+              "imports in permuted orders. Search is proved only through the witness and the correspondence (no general theorem yet)."),
+        note=TB + "Known finding: look-alike placeholder types (known_findings.json). Go string comparison abstracted to Nat ranks.",
+        technique="Lean 4 refinement proof (sorted map + trie vs association list) + exhaustive permutation correspondence",
+        ref="§5 C20",
     ),
 }
 
@@ -74,7 +89,7 @@ def main():
         f.write("\n")
 
 
-HOOK_COMMITS = []
+HOOK_COMMITS = ["b62e2a9"]
 
 if __name__ == "__main__":
     main()
